@@ -63,15 +63,16 @@ def snake(name):
     return out
 
 
-def write_tree(files, root):
-    """files: {relative dir: [nodes]} -> writes <root>/<dir>/protocol.xml for all six directories."""
+def write_tree(files, root, n_families=None, raw=None):
+    """files: {relative dir: [nodes]} -> writes <root>/<dir>/protocol.xml for all six directories.
+    raw: optional {relative dir: xml text} overriding the rendered text of a file."""
     for d in specs.FILES:
         os.makedirs(os.path.join(root, d), exist_ok=True)
         nodes = list(files.get(d, []))
         if d == "net":
-            nodes = specs.prelude() + nodes
+            nodes = specs.prelude(n_families) + nodes
         with open(os.path.join(root, d, "protocol.xml"), "w", encoding="utf-8") as f:
-            f.write(specs.protocol_xml(nodes))
+            f.write(raw[d] if raw and d in raw else specs.protocol_xml(nodes))
 
 
 def tree_for(programs):
